@@ -14,6 +14,7 @@ mod util;
 mod zig;
 mod quant;
 mod rej;
+mod zigacc;
 
 fn main() {
     util::install_quiet_panic_hook();
@@ -61,6 +62,7 @@ fn main() {
         "zig-drive" => zig::drive(rest),
         "quant-drive" => quant::drive(rest),
         "rej-drive" => rej::drive(rest),
+        "zigacc-drive" => zigacc::drive(rest),
         "tree-drive-floats" => tree::drive_floats(rest),
         _ => { eprintln!("unknown subcommand {:?}", cmd); 2 }
     };
